@@ -25,11 +25,21 @@ pub enum Cb {
     Closure,
     Pred,
     Borrow,
+    /// destructor of a key / of a value (run by the cache, inside an operation)
+    DropK,
+    DropV,
+    /// not a panic: at the n-th `Hash` call of the operation, the user code
+    /// operates *another* cache of the same thread (which reallocates). Two
+    /// caches share nothing, so this must be invisible.
+    Reenter,
 }
 
-pub const CB_KINDS: [Cb; 8] = [
+/// number of callback kinds (size of the per-kind counters)
+pub const NCB: usize = 12;
+
+pub const CB_KINDS: [Cb; 11] = [
     Cb::Hash, Cb::Eq, Cb::CloneK, Cb::CloneV, Cb::SizeK, Cb::SizeV,
-    Cb::Closure, Cb::Pred,
+    Cb::Closure, Cb::Pred, Cb::DropK, Cb::DropV, Cb::Reenter,
 ];
 
 impl Cb {
@@ -48,7 +58,15 @@ impl Cb {
             Cb::Closure => "closure",
             Cb::Pred => "pred",
             Cb::Borrow => "borrow",
+            Cb::DropK => "dropk",
+            Cb::DropV => "dropv",
+            Cb::Reenter => "reenter",
         }
+    }
+
+    /// a destructor: not among the callbacks C16 enumerates
+    pub fn is_drop(self) -> bool {
+        matches!(self, Cb::DropK | Cb::DropV)
     }
 
     pub fn from_name(s: &str) -> Option<Cb> {
@@ -62,6 +80,9 @@ impl Cb {
             "closure" => Cb::Closure,
             "pred" => Cb::Pred,
             "borrow" => Cb::Borrow,
+            "dropk" => Cb::DropK,
+            "dropv" => Cb::DropV,
+            "reenter" => Cb::Reenter,
             _ => return None,
         })
     }
@@ -117,7 +138,7 @@ impl Vio {
 pub struct Registry {
     pub objs: Vec<Option<Obj>>,
     pub vios: Vec<Vio>,
-    pub counts: [u64; 9],
+    pub counts: [u64; NCB],
     /// armed panic: (kind, calls remaining until the panic)
     pub trigger: Option<(Cb, u64)>,
     /// a cache operation is running
@@ -127,6 +148,11 @@ pub struct Registry {
     pub drops: u64,
     pub created: u64,
     pub injected_fired: u64,
+    /// once the armed closure panic has fired, measuring the value panics too
+    /// until the operation is over (a value left in a state in which its size
+    /// cannot be taken - a poisoned lock - by the closure that panicked)
+    pub sticky_armed: bool,
+    pub sticky_on: bool,
 }
 
 thread_local! {
@@ -144,7 +170,7 @@ pub fn reset() {
         r.objs.clear();
         r.objs.push(None);
         r.vios.clear();
-        r.counts = [0; 9];
+        r.counts = [0; NCB];
         r.trigger = None;
         r.window = false;
         r.allowed.clear();
@@ -193,6 +219,9 @@ fn callback(id: u64, cb: Cb) -> bool {
         let mut r = r.borrow_mut();
         r.counts[cb.idx()] += 1;
         liveness(&mut r, id, cb);
+        if r.sticky_on && cb == Cb::SizeV {
+            return true;
+        }
         match r.trigger {
             Some((k, n)) if k == cb => {
                 if n <= 1 {
@@ -220,6 +249,9 @@ pub fn free_callback(cb: Cb) {
                 if n <= 1 {
                     r.trigger = None;
                     r.injected_fired += 1;
+                    if r.sticky_armed && cb == Cb::Closure {
+                        r.sticky_on = true;
+                    }
                     true
                 }
                 else {
@@ -235,10 +267,33 @@ pub fn free_callback(cb: Cb) {
     }
 }
 
-fn on_drop(id: u64) {
-    let _ = REG.try_with(|r| {
+/// Records the destruction of object `id`; returns true when an armed
+/// destructor panic is to fire now. Destructors only ever panic inside a cache
+/// operation (callback window) and never while the thread is unwinding already.
+fn on_drop(id: u64) -> bool {
+    REG.try_with(|r| {
         let mut r = r.borrow_mut();
         r.drops += 1;
+        let is_key = r.objs.get(id as usize).copied().flatten().map(|o| o.is_key);
+        let mut fire = false;
+        if let (Some(is_key), true) = (is_key, r.window) {
+            let cb = if is_key { Cb::DropK } else { Cb::DropV };
+            r.counts[cb.idx()] += 1;
+            if let Some((k, n)) = r.trigger {
+                if k == cb {
+                    if n <= 1 {
+                        r.trigger = None;
+                        if !std::thread::panicking() {
+                            r.injected_fired += 1;
+                            fire = true;
+                        }
+                    }
+                    else {
+                        r.trigger = Some((k, n - 1));
+                    }
+                }
+            }
+        }
         let slot = r.objs.get(id as usize).copied().flatten();
         match slot {
             None => r.vios.push(Vio { kind: VioKind::UnknownId, id, what: "drop" }),
@@ -255,7 +310,8 @@ fn on_drop(id: u64) {
                 }
             }
         }
-    });
+        fire
+    }).unwrap_or(false)
 }
 
 pub fn obj(id: u64) -> Option<Obj> {
@@ -282,7 +338,7 @@ pub fn take_vios() -> Vec<Vio> {
     with_reg(|r| std::mem::take(&mut r.vios))
 }
 
-pub fn counts() -> [u64; 9] {
+pub fn counts() -> [u64; NCB] {
     with_reg(|r| r.counts)
 }
 
@@ -291,13 +347,21 @@ pub fn open_window(allowed: &[u64]) {
         r.window = true;
         r.allowed.clear();
         r.allowed.extend_from_slice(allowed);
-        r.counts = [0; 9];
+        r.counts = [0; NCB];
     })
 }
 
-pub fn close_window() -> [u64; 9] {
+/// The armed closure panic, once fired, also makes every later measurement of
+/// a value inside the same operation panic.
+pub fn arm_sticky() {
+    with_reg(|r| r.sticky_armed = true)
+}
+
+pub fn close_window() -> [u64; NCB] {
     with_reg(|r| {
         r.window = false;
+        r.sticky_armed = false;
+        r.sticky_on = false;
         r.allowed.clear();
         r.counts
     })
@@ -375,13 +439,17 @@ impl TVal {
 
 impl Drop for TKey {
     fn drop(&mut self) {
-        on_drop(self.id);
+        if on_drop(self.id) {
+            panic!("{}", INJECTED);
+        }
     }
 }
 
 impl Drop for TVal {
     fn drop(&mut self) {
-        on_drop(self.id);
+        if on_drop(self.id) {
+            panic!("{}", INJECTED);
+        }
     }
 }
 
@@ -419,10 +487,52 @@ impl Clone for TVal {
     }
 }
 
+thread_local! {
+    /// the other cache of this thread that a re-entrant `Hash` operates
+    static OTHER: RefCell<Option<lru_mem::LruCache<u32, u32>>> = const { RefCell::new(None) };
+}
+
+/// What a `Hash` implementation that memoises through a second cache does:
+/// an insertion and a rebuild of that other cache's table.
+fn operate_other_cache() {
+    let _ = OTHER.try_with(|o| {
+        if let Ok(mut o) = o.try_borrow_mut() {
+            let c = o.get_or_insert_with(|| lru_mem::LruCache::new(usize::MAX));
+            if c.capacity() > 100 {
+                c.clear();
+                c.shrink_to_fit();
+            }
+            let n = c.len() as u32;
+            let _ = c.insert(n, n);
+            // a request beyond the capacity: the table is rebuilt
+            let more = c.capacity() + 1 - c.len();
+            c.reserve(more);
+            let _ = c.get(&0);
+        }
+    });
+}
+
+/// Counts down an armed `Reenter` on `Hash` calls; true when it is due.
+fn reenter_due() -> bool {
+    REG.try_with(|r| {
+        let mut r = r.borrow_mut();
+        match r.trigger {
+            Some((Cb::Reenter, n)) if r.window => {
+                if n <= 1 { r.trigger = None; r.counts[Cb::Reenter.idx()] += 1; true }
+                else { r.trigger = Some((Cb::Reenter, n - 1)); false }
+            },
+            _ => false,
+        }
+    }).unwrap_or(false)
+}
+
 impl Hash for TKey {
     fn hash<H: Hasher>(&self, state: &mut H) {
         if callback(self.id, Cb::Hash) {
             panic!("{}", INJECTED);
+        }
+        if reenter_due() {
+            operate_other_cache();
         }
         state.write_u16(self.k)
     }
